@@ -62,6 +62,8 @@ Interstitial == \E s \in IntSites : \E ty \in {0, 2} : \E q \in {-1, 3} : \E sca
     IF Matches(p) # {} THEN Refuse("interstitial", args)
     ELSE N < 7 /\ Apply("interstitial", args,
                Append(psys.atoms, [p |-> p, t |-> IF ty = 0 THEN 1 ELSE ty, q |-> IF q = -1 THEN 0 ELSE q, oid |-> -1]))
+\* an interstitial asked for close to an atom ("beyond" the default search tolerance, inside a wide one given explicitly): occupied, refused
+InterstitialNearWide == \E i \in 1..N : Refuse("interstitial", [near |-> i - 1, p |-> psys.atoms[i].p, off |-> "beyond", atol |-> "wide", atype |-> 0, q |-> -1, scale |-> FALSE])
 Dumbbell == \E sel \in Selectors : \E k \in 1..Len(DbVects) : \E scale \in BOOLEAN : \E q \in {-1, 1} :
     LET t == Resolved(sel)
         db == IF scale THEN RelVecToCart(psys.cell, RelDb[k]) ELSE DbVects[k]
@@ -72,7 +74,7 @@ Dumbbell == \E sel \in Selectors : \E k \in 1..Len(DbVects) : \E scale \in BOOLE
                       [psys.atoms[t] EXCEPT !.p = Add(@, db), !.q = IF q = -1 THEN @ ELSE q, !.oid = -1]))
 
 PInit == psys \in PSystems /\ ph = <<>>
-PNext == Len(ph) < PDepth /\ (Vacancy \/ Substitutional \/ Interstitial \/ Dumbbell)
+PNext == Len(ph) < PDepth /\ (Vacancy \/ Substitutional \/ Interstitial \/ InterstitialNearWide \/ Dumbbell)
 
 \* ---- the property on the model ------------------------------------------------------------------------
 \* survivors keep their relative order and their original index (old ids strictly increasing among survivors that were
